@@ -80,6 +80,7 @@ def run(ctx: Ctx) -> None:
     from ..rules import memo as _memo
     _memo.rule_memo_sound(ctx, ['graphiq/backends/density_matrix/compiler.py', 'graphiq/backends/stabilizer/compiler.py', 'graphiq/backends/compiler_base.py', 'graphiq/backends/density_matrix/state.py', 'graphiq/backends/stabilizer/state.py', 'graphiq/backends/density_matrix/functions.py'])
     _memo.rule_falsy_zero(ctx, ['graphiq/backends/density_matrix/compiler.py', 'graphiq/backends/stabilizer/compiler.py', 'graphiq/backends/compiler_base.py', 'graphiq/backends/density_matrix/state.py', 'graphiq/backends/stabilizer/state.py', 'graphiq/backends/density_matrix/functions.py'])
+    _memo.rule_arg_names(ctx, ['graphiq/backends/density_matrix/compiler.py', 'graphiq/backends/stabilizer/compiler.py', 'graphiq/backends/compiler_base.py', 'graphiq/backends/density_matrix/state.py', 'graphiq/backends/stabilizer/state.py', 'graphiq/backends/density_matrix/functions.py'])
     repo = ctx.repo
     pos = hooks.hook_positions(repo)
     mcr = repo.cls("MeasurementCNOTandReset", hooks.OPS)
@@ -599,6 +600,7 @@ def _swap_first(a: str, b: str):
 
 
 KNOCKOUTS = [
+    Knockout("hook-args-swapped", "graphiq/backends/compiler_base.py", sub_nth("                self.compile_one_gate(\n                    state, op, circuit.n_quantum, q_index, classical_registers\n                )", "                self.compile_one_gate(\n                    op, state, circuit.n_quantum, q_index, classical_registers\n                )", 0), "arg.names-swapped", "swapped"),
     Knockout("forced-outcome-exact-threshold", "graphiq/backends/density_matrix/state.py", sub_once("                if not np.isclose(probs[1], 0.0):", "                if probs[1] > 0:"), "num.prob-threshold", "exact threshold", on_fixed_only=True),
     Knockout("A1-reintroduce-shadow", DM, _swap_first("elif isinstance(op, ops.MeasurementCNOTandReset):", "elif isinstance(op, ops.ClassicalControlledPairOperationBase):"),
              "dispatch.shadow", "MeasurementCNOTandReset"),
